@@ -57,7 +57,80 @@ def front(arg: dict) -> dict:
                        "es": [[e.source, e.target, e["flow_level"], bool(e["loop"])] for e in g.es]} for g in grapher.get_graphs()]
     except BaseException as e:  # noqa
         out["opt"] = {"error": type(e).__name__}
+        return out
+    out["opt_names"] = [[_vname(v) for v in g.vs] for g in grapher.get_graphs()]
+    # second rewriting phase: build_branches, with the answers of the heuristic search it calls recorded from outside
+    answers, bb = build_branches_recorded(grapher)
+    out["answers"] = answers
+    if "error" in bb:
+        out["bb"] = bb
+    else:
+        out["bb"] = [_bgraph(g, special) for g in grapher.get_graphs()]
     return out
+
+
+def _vname(v: Any) -> Any:
+    """the igraph vertex attribute "name": "v<i>" -> i, anything else ("FLR<from…>") -> None"""
+    n = v["name"]
+    if isinstance(n, str) and n[:1] == "v" and n[1:].isdigit():
+        return int(n[1:])
+    return None
+
+
+def _bgraph(g: Any, special: Any) -> dict:
+    vs = []
+    for v in g.vs:
+        d = _item(v["op"], special)
+        op = v["op"]
+        d["n"] = _vname(v)
+        ifs, ife = None, []
+        if isinstance(op, special.SsbLabelJump):
+            for m in op.markers:
+                if isinstance(m, special.IfStart):
+                    ifs = m.if_id
+                elif not isinstance(m, special.CallJump):
+                    ifs = "?" + type(m).__name__
+        elif isinstance(op, special.SsbLabel):
+            for m in op.markers:
+                ife.append(m.if_id if isinstance(m, special.IfEnd) else "?" + type(m).__name__)
+        d["ifs"] = ifs
+        d["ife"] = ife
+        vs.append(d)
+    return {"vs": vs, "es": [[e.source, e.target, e["flow_level"], bool(e["loop"]), bool(e["is_else"])] for e in g.es]}
+
+
+def build_branches_recorded(grapher: Any) -> tuple[list, dict]:
+    """runs the real build_branches(); the heuristic search find_first_common_next_vertex_in_edges is an ORACLE of the
+    model: its answers are recorded per graph, in call order, by wrapping the name in the namespace of graph_minimizer
+    for the duration of the call (None or the ids of the two edges at the time of return).
+    Returns (answers per graph, {} or {"error": class[, "oracle_raised": True]})."""
+    from explorerscript.ssb_converting.decompiler.graph_building import graph_minimizer as gm
+    graphs = list(grapher.get_graphs())
+    answers: list[list] = [[] for _ in graphs]
+    state = {"oracle_raised": False}
+    orig = gm.find_first_common_next_vertex_in_edges
+
+    def recorder(g: Any, es: Any, *a: Any, **kw: Any) -> Any:
+        k = next(i for i, gg in enumerate(graphs) if gg is g)
+        try:
+            res = orig(g, es, *a, **kw)
+        except BaseException:
+            state["oracle_raised"] = True
+            raise
+        answers[k].append(None if res is None else [e.index for e in res])
+        return res
+
+    gm.find_first_common_next_vertex_in_edges = recorder
+    try:
+        grapher.build_branches()
+    except BaseException as e:  # noqa
+        r = {"error": type(e).__name__}
+        if state["oracle_raised"]:
+            r["oracle_raised"] = True
+        return answers, r
+    finally:
+        gm.find_first_common_next_vertex_in_edges = orig
+    return answers, {}
 
 
 def front_many(args: list[dict]) -> list[dict]:
@@ -105,3 +178,77 @@ def igraph_order_selftest(arg: dict) -> dict:
             if out != exp or inn != expi:
                 bad.append(["incident order", trial, v.index, out, exp, inn, expi])
     return {"graphs": n_graphs, "bad": bad[:5]}
+
+
+class OracleExhausted(Exception):
+    pass
+
+
+class OracleEdgeMissing(Exception):
+    pass
+
+
+def _op_from_item(d: dict, special: Any, dt: Any) -> Any:
+    def plain() -> Any:
+        return dt.SsbOperation(d["off"], dt.SsbOpCode(-1, d["name"]), [rsjson.param_from_json(p) for p in d["params"]])
+    k = d["k"]
+    if k == "label":
+        op = special.SsbLabel(d["id"], 0)
+        for i in d.get("ife") or []:
+            op.add_marker(special.IfEnd(i))
+        return op
+    if k == "foreign":
+        return special.SsbForeignLabel(special.SsbLabel(d["id"], 1))
+    if k == "ljump":
+        op = special.SsbLabelJump(plain(), special.SsbLabel(d["label"], 0))
+        if d.get("call"):
+            op.add_marker(special.CallJump())
+        if d.get("ifs") is not None:
+            op.markers.append(special.IfStart(d["ifs"]))
+        return op
+    return plain()
+
+
+def branches_on_graph(arg: dict) -> dict:
+    """graph-level tie of build_branches: the REAL build_branches() on a hand-built igraph graph (vertices with the
+    attributes __init__ gives them, edges with the attributes _get_edges__add_edge gives them), the search it calls
+    replaced by the given answer list.  arg: {"g": bgraph json, "answers": [null | [ei, ee]]} -> bgraph json | {"error"}"""
+    from igraph import Graph
+    from explorerscript.ssb_converting import ssb_special_ops as special
+    from explorerscript.ssb_converting import ssb_data_types as dt
+    from explorerscript.ssb_converting.decompiler.graph_building import graph_minimizer as gm
+    g = Graph(directed=True)
+    for i, v in enumerate(arg["g"]["vs"]):
+        name = f"v{v['n']}" if v.get("n") is not None else f"FLR<from{i}>"
+        vx = g.add_vertex(name, label=None, op=_op_from_item(v, special, dt), style="solid", shape="ellipse")
+        gm.SsbGraphMinimizer._update_vertex_style(vx)
+    for s, t, lv, loop, is_else in arg["g"]["es"]:
+        g.add_edge(s, t, flow_level=lv, label=None, is_else=bool(is_else), switch_ops=None, loop=bool(loop))
+    grapher = object.__new__(gm.SsbGraphMinimizer)
+    grapher._graphs = [g]
+    grapher.optimize_ending_opcodes = True
+    answers = list(arg["answers"])
+    orig = gm.find_first_common_next_vertex_in_edges
+
+    def forced(gg: Any, es: Any, *a: Any, **kw: Any) -> Any:
+        if not answers:
+            raise OracleExhausted()
+        x = answers.pop(0)
+        if x is None:
+            return None
+        if max(x) >= gg.ecount():
+            raise OracleEdgeMissing()
+        return [gg.es[x[0]], gg.es[x[1]]]
+
+    gm.find_first_common_next_vertex_in_edges = forced
+    try:
+        grapher.build_branches()
+    except BaseException as e:  # noqa
+        return {"error": type(e).__name__}
+    finally:
+        gm.find_first_common_next_vertex_in_edges = orig
+    return _bgraph(g, special)
+
+
+def branches_on_graphs(args: list[dict]) -> list[dict]:
+    return [branches_on_graph(a) for a in args]
